@@ -214,12 +214,20 @@ def tables(ctx, obs, rule='TAB'):
         sets[q] = keys
         forms = locals().setdefault('_forms', {})
         forms[q] = form
-        # chain ends in raise
-        tails = [s for s in ast.walk(f.node) if isinstance(s, ast.If) and _keys(s.test, 'method')
-                 and not (len(s.orelse) == 1 and isinstance(s.orelse[0], ast.If))]
-        for t in tails:
-            obs.check(bool(t.orelse) and isinstance(t.orelse[-1], ast.Raise), 'EXH', q,
-                      'unknown method is rejected (chain ends in raise)', 'no raising else-arm', '', where(prog, f, t))
+        # the dispatch chain on `method` ends in a raise.  A chain = an `if` on method that is not itself the else-branch of another
+        # one; only chains with three or more arms are dispatches (a single `if method in (...)` after the chain is a shared
+        # post-processing step and needs no else)
+        keyed = [s_ for s_ in ast.walk(f.node) if isinstance(s_, ast.If) and _keys(s_.test, 'method')]
+        in_else = {id(s_.orelse[0]) for s_ in keyed if len(s_.orelse) == 1 and isinstance(s_.orelse[0], ast.If)}
+        for head in [s_ for s_ in keyed if id(s_) not in in_else]:
+            arms_n, cur = 1, head
+            while len(cur.orelse) == 1 and isinstance(cur.orelse[0], ast.If) and _keys(cur.orelse[0].test, 'method'):
+                cur = cur.orelse[0]
+                arms_n += 1
+            if arms_n < 3:
+                continue
+            obs.check(bool(cur.orelse) and any(isinstance(x, ast.Raise) for x in ast.walk(ast.Module(body=cur.orelse, type_ignores=[]))),
+                      'EXH', q, 'unknown method is rejected (chain ends in raise)', 'no raising else-arm', '', where(prog, f, cur))
     a, b = POOLS
     # the ceiling-relevant methods named in the property must be poolable by both copies
     need = ['cosine', 'corr', 'rho-a', 'cosine_cov', 'corr_cov', 'spearman', 'kendall', 'tau-b', 'tau-a']
